@@ -571,6 +571,42 @@ M.contract('exactly_lib.impls.instructions.multi_phase.change_dir:InstructionEmb
            }, raises_only=())
 
 
+# The DIR argument of `cd`: a path without relativity option is relative to the CURRENT directory -- the
+# directory an earlier `cd` has put in force ("takes effect for every later instruction"; -rel-cd itself is
+# resolved at the time of use: C12) --, and only directories inside the sandbox have an option.
+from exactly_lib.tcfs.path_relativity import RelOptionType
+
+M.contract('exactly_lib.impls.instructions.multi_phase.change_dir:relativity_options',
+           params=dict(is_after_act_phase=Bool),
+           ensures={
+               'a DIR without option is relative to the current directory (the one the last cd put in force)':
+                   lambda result: result.options.default_option is RelOptionType.REL_CWD,
+               'options: act, tmp, cd -- and result once it exists': lambda is_after_act_phase, result:
+               set(result.options.accepted_relativity_variants.rel_option_types)
+               == ({RelOptionType.REL_ACT, RelOptionType.REL_TMP, RelOptionType.REL_CWD, RelOptionType.REL_RESULT}
+                   if is_after_act_phase else {RelOptionType.REL_ACT, RelOptionType.REL_TMP, RelOptionType.REL_CWD}),
+           }, raises_only=())
+
+
+@M.check('cd-argument')
+def _cd_argument(ctx):
+    """the configuration the REAL parser objects of `cd` hold (read from the imported tree), and that the embryo
+    parses DIR with exactly that parser"""
+    import ast, inspect
+    for after in (False, True):
+        conf = change_dir.EmbryoParser(after)._path_parser._conf
+        ctx.obligation('cd (%s act): DIR without option is relative to the current directory'
+                       % ('after' if after else 'before'),
+                       conf.options.default_option is RelOptionType.REL_CWD, 'enumeration',
+                       detail={'default': conf.options.default_option.name})
+    tree = ast.parse(inspect.getsource(change_dir.EmbryoParser))
+    calls = [n for n in ast.walk(tree) if isinstance(n, ast.Call) and isinstance(n.func, ast.Attribute)
+             and n.func.attr == 'parse_from_token_parser']
+    ctx.obligation('cd parses DIR with its PathParser on relativity_options(is_after_act_phase)',
+                   len(calls) == 1 and 'relativity_options(is_after_act_phase)' in inspect.getsource(change_dir.EmbryoParser),
+                   'scan')
+
+
 @M.check('chdir-call-sites')
 def _chdir_call_sites(ctx):
     """Frame: the current directory of Exactly is changed by exactly three call sites."""
